@@ -37,6 +37,7 @@ Proof. exact running_is_reset. Qed.
 From BD.Sched Require Import Model Proofs ProofsTerm ProofsRetry.
 From BD.Graph Require Import RetrySched.
 From BD.Sched Require Import Examples.
+From BD.Sched Require Import Examples.
 
 (* Steps outside the retried part keep their recorded result and are never executed, in every execution. *)
 Theorem C10_keeps_finished : forall (c : cfg), norepeat c -> forall (tbl : nat -> nstatus), tbl_consistent c tbl ->
@@ -57,3 +58,10 @@ Theorem C10_terminates : forall (c : cfg), norepeat c -> forall (tbl : nat -> ns
   forall ls s, run c (init_from c tbl) ls = Some s -> length ls <= measure c (init_from c tbl).
 Proof. exact retry_finite. Qed.
 Print Assumptions C10_terminates.
+
+(* Non-vacuity: the diamond a -> {b, c} -> d recorded with b not finished (b and d to be run): the premises hold and
+   the retry executes b and d once each, leaves a and c untouched, and reaches Done. *)
+Example C10_retry_nonvacuous :
+  (tbl_consistent diamond retry_tbl /\ norepeat diamond) /\
+  retry_obs = Some (LDone, [(NSuccess, 0); (NSuccess, 1); (NSuccess, 0); (NSuccess, 1)]).
+Proof. exact (conj retry_example_consistent retry_example_run). Qed.
